@@ -4,7 +4,9 @@
 (*               edge routine additionally accumulates EBC) - Dijkstra phase      *)
 (*   rt = "bin": edge_betweenness_bin - breadth-first phase with D as a flag      *)
 (* One action per loop body, python variable names:                               *)
-(*   Begin     `for u in range(n)` header: D, NP, S, P, Q, q, G1/Gu, V = [u]      *)
+(*   Oracle    ghost step (not in the code): tabulates the L0 answer in `orc`      *)
+(*   Begin / NextSource                                                            *)
+(*             `for u in range(n)` header: D, NP, S, P, Q, q, G1/Gu, V = [u]      *)
 (*   Visit     body of `for v in V` (Q[q]=v; q-=1; the relaxations `for w in W`   *)
 (*             folded in increasing w, exactly as np.where yields them)           *)
 (*   Advance   tail of the `while` body: break / unreachable nodes into the       *)
@@ -18,6 +20,8 @@
 (* present text of edge_betweenness_bin (`Q[:q]`), with numpy's assignment rule:  *)
 (* equal sizes copy, a one-element source broadcasts, anything else raises.       *)
 (* DP, BC, EBC are exact fractions <<p, q>> (BctRational).                        *)
+(* Inputs (Init): every binary graph of the Kind on N nodes for both routines;     *)
+(* for "wei" also every graph with <= MaxEdges connections and lengths in Lens.    *)
 EXTENDS Betweenness
 
 CONSTANTS N, Kind, Lens, MaxEdges, Routines, Slack
